@@ -32,14 +32,23 @@ func (k msgServer) WithdrawFeeRefund(ctx context.Context, msg *types.MsgWithdraw
 	}
 	// handle failed underfunded dispute
 	if dispute.DisputeStatus == types.Failed {
+		// the fees paid towards a dispute that was never fully funded go back to the payers, less the 5% burn
 		disputeFeeTotalDec := math.LegacyNewDecFromInt(dispute.FeeTotal)
-		feeMinusBurnDec := disputeFeeTotalDec.Quo(math.LegacyNewDec(20))
-		feeMinusBurn := feeMinusBurnDec.TruncateInt()
+		burnDec := disputeFeeTotalDec.Quo(math.LegacyNewDec(20))
+		burn := burnDec.TruncateInt()
+		feeMinusBurn := dispute.FeeTotal.Sub(burn)
 		fraction, err := k.RefundDisputeFee(ctx, feePayer, payerInfo, dispute.FeeTotal, feeMinusBurn, dispute.HashId)
 		if err != nil {
 			return nil, err
 		}
 		remainder = remainder.Add(fraction)
+		// this payer's part of the burn leaves escrow with its refund
+		payerBurn := payerInfo.Amount.Mul(burn).Quo(dispute.FeeTotal)
+		if payerBurn.IsPositive() {
+			if err := k.bankKeeper.BurnCoins(ctx, types.ModuleName, sdk.NewCoins(sdk.NewCoin(layertypes.BondDenom, payerBurn))); err != nil {
+				return nil, err
+			}
+		}
 	} else {
 		// check if vote executed
 		vote, err := k.Votes.Get(ctx, msg.Id)
